@@ -78,6 +78,19 @@ type Input struct {
 	// start cases: another monitor with the same FactoryIndex is already running, so that
 	// FactoryStore.Start joins a started shared informer (AddEventHandler replays its store)
 	Joins bool `json:"joins,omitempty"`
+	// Declared (decl.go): the binding is written as the TEXT of a v1 hook configuration and the
+	// MonitorConfig comes from the REAL loader.  Types/TypesUnset are then the key
+	// executeHookOnEvent (TypesUnset = key absent), Watch/WatchSet the deprecated key
+	// watchEvent (WatchSet = key present); Style = json | yaml-flow | yaml-block; WatchFirst =
+	// watchEvent is written before executeHookOnEvent; NoSync = executeHookOnSynchronization:
+	// false is written too; BindingName = the binding's name key ("" = none).
+	Declared    bool     `json:"declared,omitempty"`
+	Watch       []string `json:"watch,omitempty"`
+	WatchSet    bool     `json:"watch_set,omitempty"`
+	Style       string   `json:"style,omitempty"`
+	WatchFirst  bool     `json:"watch_first,omitempty"`
+	NoSync      bool     `json:"no_sync,omitempty"`
+	BindingName string   `json:"binding_name,omitempty"`
 }
 
 type Fired struct {
@@ -121,6 +134,11 @@ type Obs struct {
 	// start cases: the resource ids of the deliveries the shared informer made at its start
 	// (one per existing object is expected), in the order they were seen
 	Replay []int `json:"replay,omitempty"`
+	// declared cases: the text given to the real loader, MonitorConfig.EventTypes as the
+	// loader left it (nil = the loader did not get that far), the loader's error
+	ConfigText string    `json:"config_text,omitempty"`
+	Effective  *[]string `json:"effective_event_types,omitempty"`
+	LoadErr    string    `json:"load_err,omitempty"`
 }
 
 const unknownState = 999
@@ -210,9 +228,24 @@ func deliver(h cache.ResourceEventHandler, eventType string, arg interface{}) {
 	}
 }
 
+// Run: the MonitorConfig is either built by the harness (event types set directly) or - for a
+// declared case - produced by the real loader from the configuration text; then the monitor.
 func Run(in Input) Obs {
-	var o Obs
 	log.SetDefaultLevel(log.LevelFatal)
+	if in.Declared {
+		text := ConfigText(in)
+		mc, err := loadDeclared(text)
+		if err != nil {
+			return Obs{ConfigText: text, LoadErr: err.Error(), Err: err.Error()}
+		}
+		eff := []string{}
+		for _, t := range mc.EventTypes {
+			eff = append(eff, string(t))
+		}
+		o := runWith(in, mc)
+		o.ConfigText, o.Effective = text, &eff
+		return o
+	}
 	mc := &kem.MonitorConfig{}
 	mc.Metadata.MonitorId = "c08-monitor"
 	mc.Metadata.DebugName = "c08"
@@ -232,6 +265,11 @@ func Run(in Input) Obs {
 		}
 		mc.WithEventTypes(ts)
 	}
+	return runWith(in, mc)
+}
+
+func runWith(in Input, mc *kem.MonitorConfig) Obs {
+	var o Obs
 	ctx, cancel := context.WithCancel(context.Background())
 	defer cancel()
 	if in.Mode == modeStart {
@@ -303,7 +341,7 @@ func Run(in Input) Obs {
 		taken = len(events)
 		for _, ke := range fresh {
 			f := Fired{Type: "?", State: unknownState}
-			if len(ke.WatchEvents) == 1 && ke.Type == kemtypes.TypeEvent && ke.MonitorId == "c08-monitor" {
+			if len(ke.WatchEvents) == 1 && ke.Type == kemtypes.TypeEvent && ke.MonitorId == mc.Metadata.MonitorId {
 				f.Type = string(ke.WatchEvents[0])
 			}
 			if len(ke.Objects) == 1 {
@@ -368,6 +406,14 @@ func Render(in Input, obs *Obs, crash string) core.Case {
 	if !in.TypesUnset {
 		types = "(Some " + core.CoqList(in.Types, coqType) + ")"
 	}
+	watch := "None"
+	if in.Declared && in.WatchSet {
+		watch = "(Some " + core.CoqList(in.Watch, coqType) + ")"
+	}
+	eff := "None"
+	if in.Declared && o.Effective != nil {
+		eff = "(Some " + core.CoqList(*o.Effective, coqType) + ")"
+	}
 	states := core.CoqList(in.States, func(s State) string { return fmt.Sprintf("(%d, %s)", s.Id, coqJSONText([]byte(s.Obj))) })
 	answers := core.CoqList(o.Answers, func(a Answer) string {
 		return fmt.Sprintf("(%s, %s)", core.CoqList(a.Outs, func(r json.RawMessage) string { return coqJSONText(r) }), core.CoqBool(a.Failed))
@@ -420,19 +466,33 @@ func Render(in Input, obs *Obs, crash string) core.Case {
 			core.CoqList(s.Cache, func(c CacheEntry) string { return fmt.Sprintf("(%d, %d)", c.Id, c.State) }))
 	})
 	c := core.Case{}
-	c.Coq = fmt.Sprintf("(mkCase %s %s\n  %s\n  %s\n  %s %s %s\n  %s\n  %s)", types, core.CoqBool(in.Filter != ""), states, answers,
+	c.Coq = fmt.Sprintf("(mkCase %s %s %s %s %s\n  %s\n  %s\n  %s %s %s\n  %s\n  %s)", types, watch, core.CoqBool(in.Declared), eff,
+		core.CoqBool(in.Filter != ""), states, answers,
 		core.CoqBool(real), core.CoqList(listed, core.CoqN), cache0, hist, obsl)
 	c.JSON = o
 	kb, _ := json.Marshal(in)
 	c.Key = string(kb)
 
 	c.Tags = append(c.Tags, "filter:"+in.Family)
+	c.Tags = append(c.Tags, declTags(in)...)
 	if in.TypesUnset {
 		c.Tags = append(c.Tags, "types:unset(default)")
 	} else {
 		ts := append([]string{}, in.Types...)
 		sort.Strings(ts)
 		c.Tags = append(c.Tags, "types:{"+strings.Join(ts, ",")+"}")
+	}
+	// the event types the monitor runs with (tags only): as observed on the loader's output
+	// for a declared case, else as the harness set them
+	effList := in.Types
+	if in.TypesUnset {
+		effList = all3
+	}
+	if in.Declared {
+		effList = nil
+		if o.Effective != nil {
+			effList = *o.Effective
+		}
 	}
 	fired, suppressed, repeats, deletes := 0, 0, 0, 0
 	tombstones, tombstonesOther, relists := 0, 0, 0
@@ -488,8 +548,8 @@ func Render(in Input, obs *Obs, crash string) core.Case {
 	switch {
 	case tombstones > 0:
 		c.Tags = append(c.Tags, "delivery:some-Deleted-as-tombstone(DeletedFinalStateUnknown by value)")
-		listed := in.TypesUnset
-		for _, t := range in.Types {
+		listed := false
+		for _, t := range effList {
 			if t == "Deleted" {
 				listed = true
 			}
@@ -530,11 +590,19 @@ func Render(in Input, obs *Obs, crash string) core.Case {
 	// non-trivial: at least 3 deliveries, both a fired and a silent delivery
 	c.Nontrivial = len(history) >= 3 && fired > 0 && suppressed > 0
 	if real {
-		c.Tags = append(c.Tags, pl.tags(in)...)
+		c.Tags = append(c.Tags, pl.tags(in, effList)...)
 		// a start case: at least one existing object was replayed and something else was delivered
 		c.Nontrivial = len(listed) >= 1 && len(history) >= 2 && len(o.Steps) == len(history)
 	} else {
 		c.Tags = append(c.Tags, "mode:harness-calls-the-handlers(informer not started)")
+		if in.Declared && !in.TypesUnset && len(in.Types) == 0 {
+			// a snapshot-only declaration: nothing may fire; non-trivial when the gate had
+			// at least three deliveries to keep silent
+			c.Nontrivial = len(history) >= 3 && fired == 0 && suppressed >= 3
+		}
+	}
+	if in.Declared && o.Effective == nil {
+		c.Nontrivial = false
 	}
 	return c
 }
@@ -927,6 +995,9 @@ func Gen(r *core.Rng, tier string) ([]core.In[Input], bool) {
 	for _, c := range StartCorpus() {
 		ins = append(ins, core.In[Input]{Input: c, Stream: "corpus"})
 	}
+	for _, c := range DeclCorpus() {
+		ins = append(ins, core.In[Input]{Input: c, Stream: "corpus"})
+	}
 	for _, c := range TriggerCorpus() {
 		ins = append(ins, core.In[Input]{Input: c, Stream: "trigger-F8"})
 	}
@@ -935,11 +1006,14 @@ func Gen(r *core.Rng, tier string) ([]core.In[Input], bool) {
 	}
 	g := &gen{r: r}
 	n, maxLen, nStart := 300, 8, 126
+	declRounds, declStartEvery := 1, 3
 	switch tier {
 	case "thorough":
 		n, maxLen, nStart = 10000, 12, 3600
+		declRounds, declStartEvery = 25, 4
 	case "search":
 		n, maxLen, nStart = 2000, 8, 900
+		declRounds, declStartEvery = 6, 3
 	}
 
 	// filters whose result is a single object (and the no-filter case) form the main
@@ -996,11 +1070,14 @@ func Gen(r *core.Rng, tier string) ([]core.In[Input], bool) {
 		}
 		ins = append(ins, core.In[Input]{Input: g.startCase(subset), Stream: "start"})
 	}
+	// declared cases: all 81 pairs (executeHookOnEvent, watchEvent) of {absent, 8 subsets},
+	// the configuration text through the real loader (decl.go)
+	ins = append(ins, g.declGrid(declRounds, declStartEvery, mainF, append(append([]filterDef{}, trigF...), errF...))...)
 	return ins, false
 }
 
 var Driver = core.Driver[Input, Obs]{
 	Spec: core.Spec{Property: "C08", Imports: []string{"Json", "C08_Model", "C08_Spec", "C08_Corr"}, Corr: "C08_Corr", Triggers: []string{"F8", "F16"}, ShrinkKey: "history",
-		Rule: "scripted histories of watch events (1-3 objects; creations, single-field changes mostly outside a given projection, re-deliveries of the identical state, flips back to earlier states, deletes and re-creations) delivered to the resourceInformer of a real monitor (NewMonitor+CreateInformers on a fake cluster, not started) through its client-go handler methods OnAdd/OnUpdate/OnDelete; the handler's argument in both forms client-go uses: the *unstructured.Unstructured itself, or - in 3 cases of 5 for half of the Deleted deliveries - the cache.DeletedFinalStateUnknown tombstone (by value) that a real client-go DeltaFIFO.Replace produces for an object missing from a relist; in those cases also relist batches (15% per step: per object changed / deleted-and-recreated -> OnUpdate, unchanged -> OnUpdate or left out, new -> OnAdd, then tombstones for the missing ones); all 8 subsets of {Added,Modified,Deleted} and 'not configured' round robin; filter family: none, object paths, constructed objects (main stream), scalars, arrays, null, empty/select, multiple outputs (trigger-F8 stream, ~27%), failing filters (trigger-F16 stream, ~8%); /usr/bin/jq answers for every state are the model's oracle table; non-trivial = >= 3 deliveries with at least one fired and one silent delivery; distinct = distinct input text. START CASES (stream 'start', 126 of the quick tier, and 8 corpus cases; harness/internal/c08/start.go): 0-3 objects exist in the fake cluster as an API server returns them (uid, resourceVersion, creationTimestamp, labels, sometimes generation and the last-applied annotation, 65% with metadata.managedFields); then the monitor is created (loadExistedObjects lists them; the snapshot right after is compared), unlocked and STARTED: the real client-go shared informer (FactoryStore.Start; in 30% another binding's monitor runs already and the informer is joined) makes every delivery - its replay of the existing objects, then 0-3 ordinary cluster operations (create, update with the resourceVersion moved / managedFields rewritten / bookkeeping only, delete, re-create); bindings: no jqFilter 35%, `.` 13%, `.metadata` 13%, `.data` 10%, del(.status), constructed objects over metadata / labels / data / managedFields; every subset of event types and 'not configured' round robin; each delivery is observed from the informer's own goroutine (handler that ran, object delivered, events fired, snapshot); the environment assumption of C08_start_redelivery_silent (the informer re-delivers exactly the listed objects, unchanged) is checked on every such case; non-trivial start case = at least one existing object replayed and at least two deliveries, all observed"},
+		Rule: "scripted histories of watch events (1-3 objects; creations, single-field changes mostly outside a given projection, re-deliveries of the identical state, flips back to earlier states, deletes and re-creations) delivered to the resourceInformer of a real monitor (NewMonitor+CreateInformers on a fake cluster, not started) through its client-go handler methods OnAdd/OnUpdate/OnDelete; the handler's argument in both forms client-go uses: the *unstructured.Unstructured itself, or - in 3 cases of 5 for half of the Deleted deliveries - the cache.DeletedFinalStateUnknown tombstone (by value) that a real client-go DeltaFIFO.Replace produces for an object missing from a relist; in those cases also relist batches (15% per step: per object changed / deleted-and-recreated -> OnUpdate, unchanged -> OnUpdate or left out, new -> OnAdd, then tombstones for the missing ones); all 8 subsets of {Added,Modified,Deleted} and 'not configured' round robin; filter family: none, object paths, constructed objects (main stream), scalars, arrays, null, empty/select, multiple outputs (trigger-F8 stream, ~27%), failing filters (trigger-F16 stream, ~8%); /usr/bin/jq answers for every state are the model's oracle table; non-trivial = >= 3 deliveries with at least one fired and one silent delivery; distinct = distinct input text. START CASES (stream 'start', 126 of the quick tier, and 8 corpus cases; harness/internal/c08/start.go): 0-3 objects exist in the fake cluster as an API server returns them (uid, resourceVersion, creationTimestamp, labels, sometimes generation and the last-applied annotation, 65% with metadata.managedFields); then the monitor is created (loadExistedObjects lists them; the snapshot right after is compared), unlocked and STARTED: the real client-go shared informer (FactoryStore.Start; in 30% another binding's monitor runs already and the informer is joined) makes every delivery - its replay of the existing objects, then 0-3 ordinary cluster operations (create, update with the resourceVersion moved / managedFields rewritten / bookkeeping only, delete, re-create); bindings: no jqFilter 35%, `.` 13%, `.metadata` 13%, `.data` 10%, del(.status), constructed objects over metadata / labels / data / managedFields; every subset of event types and 'not configured' round robin; each delivery is observed from the informer's own goroutine (handler that ran, object delivered, events fired, snapshot); the environment assumption of C08_start_redelivery_silent (the informer re-delivers exactly the listed objects, unchanged) is checked on every such case; non-trivial start case = at least one existing object replayed and at least two deliveries, all observed. DECLARED CASES (streams 'declared' / 'declared-start', 81 + 27 of the quick tier, and 11 corpus cases; harness/internal/c08/decl.go): the binding is written as the TEXT of a v1 hook configuration - executeHookOnEvent absent or any of the 8 subsets, the deprecated watchEvent absent or any of the 8 subsets: all 81 pairs in every run (thorough: 25 rounds), lists permuted (30%) or with a repeated element (10%), JSON / YAML flow / YAML block round robin, the two keys in either order, sometimes name and executeHookOnSynchronization:false - and given to the REAL loader (HookConfig.LoadAndValidate: schema validation, yaml unmarshalling, HookConfigV1.ConvertAndCheck); the monitor runs with the MonitorConfig the loader returned (created as KubeEventsManager.AddMonitor does) with the harness calling the handlers (histories as above, 1-2 objects, up to 6 deliveries) or, one case in three, as a start case with the real shared informer; MonitorConfig.EventTypes as loaded is compared with the model's conversion (effective_types) and every observation is judged by P_decl against the DECLARED list; non-trivial declared case = as for its mode, for `executeHookOnEvent: []` at least three deliveries all kept silent"},
 	Gen: Gen, Run: Run, Render: Render, PerShard: 60, Workers: 8, CaseTimout: 20 * time.Second,
 }
